@@ -189,11 +189,24 @@ func derefPtr(fr *frame, pos token.Pos, p value) *value {
 }
 
 // checkIndex asserts 0 <= idx < n for a concrete or symbolic idx.
-func checkIndex(fr *frame, pos token.Pos, idx value, n int) {
+func checkIndex(fr *frame, pos token.Pos, idx value, n int, it types.Type) {
 	if s, ok := idx.(*symv); ok {
-		lim := bvLit(uint64(n), s.bits)
-		var safe string
-		safe = "(bvult " + s.term + " " + lim + ")"
+		// compare at 64 bits: sign- or zero-extend by the static index type, negative = huge
+		t := s.term
+		if s.bits < 64 {
+			signed := true
+			if it != nil {
+				if b := basicOf(it); b != nil {
+					_, signed = intBits(b)
+				}
+			}
+			if signed {
+				t = fmt.Sprintf("((_ sign_extend %d) %s)", 64-s.bits, t)
+			} else {
+				t = fmt.Sprintf("((_ zero_extend %d) %s)", 64-s.bits, t)
+			}
+		}
+		safe := "(bvult " + t + " " + bvLit(uint64(n), 64) + ")"
 		if n == 0 {
 			safe = "false"
 		}
@@ -211,7 +224,7 @@ func checkIndex(fr *frame, pos token.Pos, idx value, n int) {
 
 // symIndexElems resolves x[idx] for symbolic idx: scalars stay lazy (symptr), others fork.
 func symIndexAddr(fr *frame, instr *ssa.IndexAddr, elems []value, idx *symv, et types.Type) value {
-	checkIndex(fr, instr.Pos(), idx, len(elems))
+	checkIndex(fr, instr.Pos(), idx, len(elems), instr.Index.Type())
 	if isScalarType(et) && len(elems) <= 512 {
 		return &symptr{elems: elems, idx: idx}
 	}
@@ -437,7 +450,7 @@ func visitInstr(fr *frame, instr ssa.Instruction) continuation {
 			fr.env[instr] = symIndexAddr(fr, instr, elems, si, et)
 			break
 		}
-		checkIndex(fr, instr.Pos(), idx, len(elems))
+		checkIndex(fr, instr.Pos(), idx, len(elems), instr.Index.Type())
 		fr.env[instr] = &elems[asInt64(idx)]
 
 	case *ssa.Index:
@@ -449,10 +462,10 @@ func visitInstr(fr *frame, instr ssa.Instruction) continuation {
 			elems = x
 		case string:
 			if si, ok := idx.(*symv); ok {
-				checkIndex(fr, instr.Pos(), si, len(x))
+				checkIndex(fr, instr.Pos(), si, len(x), instr.Index.Type())
 				fr.env[instr] = (&symptr{elems: []value(toSymstr(x)), idx: si}).load(fr, instr.Type())
 			} else {
-				checkIndex(fr, instr.Pos(), idx, len(x))
+				checkIndex(fr, instr.Pos(), idx, len(x), instr.Index.Type())
 				fr.env[instr] = x[asInt64(idx)]
 			}
 			return kNext
@@ -461,7 +474,7 @@ func visitInstr(fr *frame, instr ssa.Instruction) continuation {
 		default:
 			panic(engineFault{fmt.Sprintf("unexpected x type in Index: %T", x)})
 		}
-		checkIndex(fr, instr.Pos(), idx, len(elems))
+		checkIndex(fr, instr.Pos(), idx, len(elems), instr.Index.Type())
 		if si, ok := idx.(*symv); ok {
 			if isScalarType(instr.Type()) {
 				fr.env[instr] = (&symptr{elems: elems, idx: si}).load(fr, instr.Type())
@@ -690,7 +703,7 @@ func callSSA(i *interpreter, caller *frame, callpos token.Pos, fn *ssa.Function,
 				return v
 			}
 			where := ""
-			for f, n := caller, 0; f != nil && n < 4; f, n = f.caller, n+1 {
+			for f, n := caller, 0; f != nil && n < 8; f, n = f.caller, n+1 {
 				where += " < " + f.fn.String()
 			}
 			panic(engineFault{"no code for function: " + fi.name + where})
